@@ -85,7 +85,9 @@ def gen(prop, stream, tier, avoid):
         elif k == "import_dir":
             op = {"op": "import_dir", "which": rng.randrange(8), "faults": []}
         elif k == "edit":
-            op = {"op": "edit", "obj": rng.randrange(4), "seed": rng.randrange(1 << 30)}
+            op = {"op": "edit", "obj": rng.randrange(4), "seed": rng.randrange(1 << 30),
+                  "how": rng.pick(["set_ctrlpts", "set_ctrlpts", "weights", "ctrlpts"]),
+                  "scribble": rng.chance(0.5)}      # the caller goes on modifying the list it passed (to build its next shape from it)
         else:
             nrestart += 1
             op = {"op": "restart", "cache_size": rng.pick([None, "1", "16", "1024"])}
@@ -454,11 +456,31 @@ def run(script, ctx):
             i = op["obj"] % len(world.model_objs)
             spec = world.model_objs[i]
             rng = Rng(op["seed"], "edit")
-            spec["P"] = shapes.gen_points(rng, len(spec["P"]), spec["dim"])
-            if spec["rational"]:
-                spec["W"] = shapes.gen_weights(rng, len(spec["P"]))
-            world.live[i].set_ctrlpts(shapes.spec_ctrlptsw(spec), *spec["sizes"])
-            ctx.log("edit", i)
+            how = op.get("how", "set_ctrlpts")
+            if how == "weights" and spec["rational"]:
+                spec["W"] = shapes.gen_weights(rng, len(spec["P"]), unit_chance=0.05)
+                passed = list(spec["W"])
+                world.live[i].weights = passed
+            elif how == "ctrlpts":
+                spec["P"] = shapes.gen_points(rng, len(spec["P"]), spec["dim"])
+                passed = [list(q) for q in spec["P"]]
+                world.live[i].ctrlpts = passed
+            else:
+                how = "set_ctrlpts"
+                spec["P"] = shapes.gen_points(rng, len(spec["P"]), spec["dim"])
+                if spec["rational"]:
+                    spec["W"] = shapes.gen_weights(rng, len(spec["P"]))
+                passed = shapes.spec_ctrlptsw(spec)
+                world.live[i].set_ctrlpts(passed, *spec["sizes"])
+            if op.get("scribble"):
+                if how == "weights":
+                    passed[0] = passed[0] * 2.0
+                    passed.reverse()
+                else:
+                    passed[0][0] = passed[0][0] + 1.0
+                    passed[-1] = [c * 0.5 for c in passed[-1]]
+                ctx.probe("caller_reused_its_argument_list_after_the_setter")
+            ctx.log("edit", i, how, bool(op.get("scribble")))
             ctx.ops_executed += 1
             continue
         if k == "restart":
